@@ -67,7 +67,7 @@ def handle_interaction_order(final_df: pd.DataFrame, output_folder: str, heurist
         for _, row in final_df.iterrows():
             fname = row['Feature']
             score = row[f'Score {heuristic}']
-            if 'AND' in fname:
+            if ' AND ' in fname:
                 for el in fname.split('-')[0].split(' AND '):
                     feature_store[el].append(score)
 
